@@ -55,6 +55,15 @@ pub struct Dump {
   pub write_transaction_starting_block_count_to_timestamp: Vec<(u32, u128)>,
 }
 
+/// a table that was never written does not exist yet: treat it as empty
+fn verif_opt<T>(result: std::result::Result<T, redb::TableError>) -> Result<Option<T>> {
+  match result {
+    Ok(table) => Ok(Some(table)),
+    Err(redb::TableError::TableDoesNotExist(_)) => Ok(None),
+    Err(err) => Err(err.into()),
+  }
+}
+
 impl Index {
   pub fn verif_flags(&self) -> (bool, bool, bool, bool, bool) {
     (
@@ -66,11 +75,21 @@ impl Index {
     )
   }
 
+  /// ids of the persistent savepoints currently held by the database
+  pub fn verif_savepoints(&self) -> Result<Vec<u64>> {
+    let wtx = self.begin_write()?;
+    let mut savepoints = wtx.list_persistent_savepoints()?.collect::<Vec<u64>>();
+    savepoints.sort();
+    wtx.abort()?;
+    Ok(savepoints)
+  }
+
   pub fn verif_dump(&self) -> Result<Dump> {
     let rtx = self.database.begin_read()?;
     let mut dump = Dump::default();
 
-    for result in rtx.open_table(OUTPOINT_TO_UTXO_ENTRY)?.iter()? {
+    if let Some(table) = verif_opt(rtx.open_table(OUTPOINT_TO_UTXO_ENTRY))? {
+    for result in table.iter()? {
       let (key, value) = result?;
       let entry = value.value();
       let parsed = entry.parse(self);
@@ -96,15 +115,19 @@ impl Index {
         inscriptions: self.index_inscriptions.then(|| parsed.parse_inscriptions()),
       });
     }
+    }
 
-    for result in rtx.open_table(SAT_TO_SATPOINT)?.iter()? {
+    if let Some(table) = verif_opt(rtx.open_table(SAT_TO_SATPOINT))? {
+    for result in table.iter()? {
       let (key, value) = result?;
       dump
         .sat_to_satpoint
         .push((key.value(), SatPoint::load(*value.value())));
     }
+    }
 
-    for result in rtx.open_multimap_table(SAT_TO_SEQUENCE_NUMBER)?.iter()? {
+    if let Some(table) = verif_opt(rtx.open_multimap_table(SAT_TO_SEQUENCE_NUMBER))? {
+    for result in table.iter()? {
       let (key, values) = result?;
       let mut v = Vec::new();
       for value in values {
@@ -112,8 +135,10 @@ impl Index {
       }
       dump.sat_to_sequence_number.push((key.value(), v));
     }
+    }
 
-    for result in rtx.open_multimap_table(SCRIPT_PUBKEY_TO_OUTPOINT)?.iter()? {
+    if let Some(table) = verif_opt(rtx.open_multimap_table(SCRIPT_PUBKEY_TO_OUTPOINT))? {
+    for result in table.iter()? {
       let (key, values) = result?;
       let mut v = Vec::new();
       for value in values {
@@ -123,8 +148,10 @@ impl Index {
         .script_pubkey_to_outpoint
         .push((key.value().to_vec(), v));
     }
+    }
 
-    for result in rtx.open_multimap_table(SEQUENCE_NUMBER_TO_CHILDREN)?.iter()? {
+    if let Some(table) = verif_opt(rtx.open_multimap_table(SEQUENCE_NUMBER_TO_CHILDREN))? {
+    for result in table.iter()? {
       let (key, values) = result?;
       let mut v = Vec::new();
       for value in values {
@@ -132,11 +159,10 @@ impl Index {
       }
       dump.sequence_number_to_children.push((key.value(), v));
     }
+    }
 
-    for result in rtx
-      .open_multimap_table(LATEST_CHILD_SEQUENCE_NUMBER_TO_COLLECTION_SEQUENCE_NUMBER)?
-      .iter()?
-    {
+    if let Some(table) = verif_opt(rtx.open_multimap_table(LATEST_CHILD_SEQUENCE_NUMBER_TO_COLLECTION_SEQUENCE_NUMBER))? {
+    for result in table.iter()? {
       let (key, values) = result?;
       let mut v = Vec::new();
       for value in values {
@@ -144,61 +170,71 @@ impl Index {
       }
       dump.latest_child_to_collection.push((key.value(), v));
     }
+    }
 
-    for result in rtx
-      .open_table(COLLECTION_SEQUENCE_NUMBER_TO_LATEST_CHILD_SEQUENCE_NUMBER)?
-      .iter()?
-    {
+    if let Some(table) = verif_opt(rtx.open_table(COLLECTION_SEQUENCE_NUMBER_TO_LATEST_CHILD_SEQUENCE_NUMBER))? {
+    for result in table.iter()? {
       let (key, value) = result?;
       dump
         .collection_to_latest_child
         .push((key.value(), value.value()));
     }
+    }
 
-    for result in rtx.open_table(GALLERY_SEQUENCE_NUMBERS)?.iter()? {
+    if let Some(table) = verif_opt(rtx.open_table(GALLERY_SEQUENCE_NUMBERS))? {
+    for result in table.iter()? {
       let (key, _) = result?;
       dump.gallery_sequence_numbers.push(key.value());
     }
+    }
 
-    for result in rtx.open_table(HEIGHT_TO_BLOCK_HEADER)?.iter()? {
+    if let Some(table) = verif_opt(rtx.open_table(HEIGHT_TO_BLOCK_HEADER))? {
+    for result in table.iter()? {
       let (key, value) = result?;
       dump
         .height_to_block_header
         .push((key.value(), Header::load(*value.value())));
     }
+    }
 
-    for result in rtx.open_table(HEIGHT_TO_LAST_SEQUENCE_NUMBER)?.iter()? {
+    if let Some(table) = verif_opt(rtx.open_table(HEIGHT_TO_LAST_SEQUENCE_NUMBER))? {
+    for result in table.iter()? {
       let (key, value) = result?;
       dump
         .height_to_last_sequence_number
         .push((key.value(), value.value()));
     }
+    }
 
-    for result in rtx.open_table(HOME_INSCRIPTIONS)?.iter()? {
+    if let Some(table) = verif_opt(rtx.open_table(HOME_INSCRIPTIONS))? {
+    for result in table.iter()? {
       let (key, value) = result?;
       dump
         .home_inscriptions
         .push((key.value(), InscriptionId::load(value.value())));
     }
+    }
 
-    for result in rtx.open_table(INSCRIPTION_ID_TO_SEQUENCE_NUMBER)?.iter()? {
+    if let Some(table) = verif_opt(rtx.open_table(INSCRIPTION_ID_TO_SEQUENCE_NUMBER))? {
+    for result in table.iter()? {
       let (key, value) = result?;
       dump
         .inscription_id_to_sequence_number
         .push((InscriptionId::load(key.value()), value.value()));
     }
+    }
 
-    for result in rtx
-      .open_table(INSCRIPTION_NUMBER_TO_SEQUENCE_NUMBER)?
-      .iter()?
-    {
+    if let Some(table) = verif_opt(rtx.open_table(INSCRIPTION_NUMBER_TO_SEQUENCE_NUMBER))? {
+    for result in table.iter()? {
       let (key, value) = result?;
       dump
         .inscription_number_to_sequence_number
         .push((key.value(), value.value()));
     }
+    }
 
-    for result in rtx.open_table(OUTPOINT_TO_RUNE_BALANCES)?.iter()? {
+    if let Some(table) = verif_opt(rtx.open_table(OUTPOINT_TO_RUNE_BALANCES))? {
+    for result in table.iter()? {
       let (key, value) = result?;
       let buffer = value.value();
       let mut balances = Vec::new();
@@ -212,25 +248,28 @@ impl Index {
         .outpoint_to_rune_balances
         .push((OutPoint::load(*key.value()), balances));
     }
+    }
 
-    for result in rtx.open_table(RUNE_ID_TO_RUNE_ENTRY)?.iter()? {
+    if let Some(table) = verif_opt(rtx.open_table(RUNE_ID_TO_RUNE_ENTRY))? {
+    for result in table.iter()? {
       let (key, value) = result?;
       dump
         .rune_id_to_rune_entry
         .push((RuneId::load(key.value()), RuneEntry::load(value.value())));
     }
+    }
 
-    for result in rtx.open_table(RUNE_TO_RUNE_ID)?.iter()? {
+    if let Some(table) = verif_opt(rtx.open_table(RUNE_TO_RUNE_ID))? {
+    for result in table.iter()? {
       let (key, value) = result?;
       dump
         .rune_to_rune_id
         .push((key.value(), RuneId::load(value.value())));
     }
+    }
 
-    for result in rtx
-      .open_table(SEQUENCE_NUMBER_TO_INSCRIPTION_ENTRY)?
-      .iter()?
-    {
+    if let Some(table) = verif_opt(rtx.open_table(SEQUENCE_NUMBER_TO_INSCRIPTION_ENTRY))? {
+    for result in table.iter()? {
       let (key, value) = result?;
       let entry = InscriptionEntry::load(value.value());
       dump.sequence_number_to_inscription_entry.push((
@@ -249,48 +288,58 @@ impl Index {
         },
       ));
     }
+    }
 
-    for result in rtx.open_table(SEQUENCE_NUMBER_TO_RUNE_ID)?.iter()? {
+    if let Some(table) = verif_opt(rtx.open_table(SEQUENCE_NUMBER_TO_RUNE_ID))? {
+    for result in table.iter()? {
       let (key, value) = result?;
       dump
         .sequence_number_to_rune_id
         .push((key.value(), RuneId::load(value.value())));
     }
+    }
 
-    for result in rtx.open_table(SEQUENCE_NUMBER_TO_SATPOINT)?.iter()? {
+    if let Some(table) = verif_opt(rtx.open_table(SEQUENCE_NUMBER_TO_SATPOINT))? {
+    for result in table.iter()? {
       let (key, value) = result?;
       dump
         .sequence_number_to_satpoint
         .push((key.value(), SatPoint::load(*value.value())));
     }
+    }
 
-    for result in rtx.open_table(STATISTIC_TO_COUNT)?.iter()? {
+    if let Some(table) = verif_opt(rtx.open_table(STATISTIC_TO_COUNT))? {
+    for result in table.iter()? {
       let (key, value) = result?;
       dump.statistic_to_count.push((key.value(), value.value()));
     }
+    }
 
-    for result in rtx.open_table(TRANSACTION_ID_TO_RUNE)?.iter()? {
+    if let Some(table) = verif_opt(rtx.open_table(TRANSACTION_ID_TO_RUNE))? {
+    for result in table.iter()? {
       let (key, value) = result?;
       dump
         .transaction_id_to_rune
         .push((Txid::load(*key.value()), value.value()));
     }
+    }
 
-    for result in rtx.open_table(TRANSACTION_ID_TO_TRANSACTION)?.iter()? {
+    if let Some(table) = verif_opt(rtx.open_table(TRANSACTION_ID_TO_TRANSACTION))? {
+    for result in table.iter()? {
       let (key, value) = result?;
       dump
         .transaction_id_to_transaction
         .push((Txid::load(*key.value()), value.value().to_vec()));
     }
+    }
 
-    for result in rtx
-      .open_table(WRITE_TRANSACTION_STARTING_BLOCK_COUNT_TO_TIMESTAMP)?
-      .iter()?
-    {
+    if let Some(table) = verif_opt(rtx.open_table(WRITE_TRANSACTION_STARTING_BLOCK_COUNT_TO_TIMESTAMP))? {
+    for result in table.iter()? {
       let (key, value) = result?;
       dump
         .write_transaction_starting_block_count_to_timestamp
         .push((key.value(), value.value()));
+    }
     }
 
     Ok(dump)
